@@ -1350,6 +1350,12 @@ impl World {
                 log(e);
                 return;
             }
+            // only the downlink's input ends; what it writes can still be read
+            "closein" => {
+                ch.tx = None;
+                log(e);
+                return;
+            }
             "outfail" => {
                 ch.out = None;
                 log(e);
